@@ -28,4 +28,7 @@ func init() {
 	specs["C05"] = &PropSpec{Level: "exploration", QuickRuns: 64, ThorRuns: 800, Wall: 240 * time.Second, MaxProcs: 2,
 		Rule:   "episode = one global transaction with 1-3 TCC prepares (5 registered actions in interface and tagged-function style, parameter structs from a fixed family with generated values, registration accepted / refused / unanswered, try ok or failing) followed by 1-6 phase-two requests (commit/rollback, repeated, unknown resource, unknown branch id, application data as registered / empty / malformed, user method ok / error / panic); distinct = (parameter kind, registration, try) and (commit, data, unknown, result) signatures; non-trivial = any prepare, and any phase-two request that is not a plain successful one",
 		Assume: append([]string{"user try/commit/rollback are recording stubs with scripted results", "nil prepare parameters are outside the generated family (reflect.ValueOf(nil) makes TwoPhaseAction.Prepare panic; noted in DESIGN.md, not part of the property's quantifier)"}, commonAssume...)}
+	specs["C15"] = &PropSpec{Level: "exploration", QuickRuns: 64, ThorRuns: 800, Wall: 240 * time.Second, MaxProcs: 2,
+		Rule:   "episode = 1-10 branch commit/rollback requests sent at once on one session, mixing branch types AT/TCC/XA and types without a manager, generated xids / branch ids (full 64-bit range) / resource ids, scripted manager outcome (any status, error, panic); managers finish in tape-chosen order (sim point inside the manager), write returns are scheduling points; distinct = (type, commit, outcome, status) signatures; non-trivial = more than one request in flight",
+		Assume: append([]string{"resource managers are scripted stubs registered through the public RegisterResourceManager; the real managers are exercised by other properties' engines"}, commonAssume...)}
 }
